@@ -143,6 +143,14 @@ func pointsFoldCase(c *Ctx) {
 			return
 		}
 	}
+	var storedIdx []int
+	for i := 0; i < k; i++ {
+		if !(i == k-1 && newestInProgress) {
+			storedIdx = append(storedIdx, i)
+		}
+	}
+	// cs-* lines (s_consstore.go), emitted when the case is over — also when a monitor below ends it early
+	defer csFoldPoints(c, kv, sdb, storedIdx, func(i int) *storage.Point { return specs[i].build(hashes[i], hashes[i+1]) })
 	get := func(d *storage.DB, i int) *storage.Point {
 		if i == k-1 && newestInProgress {
 			return specs[i].build(hashes[i], hashes[i+1]) // generatePointFromChain: a new object on every read
@@ -203,13 +211,6 @@ func pointsFoldCase(c *Ctx) {
 		}
 	}
 	checkPeriods(sdb, "from the cache at the end")
-	var storedIdx []int
-	for i := 0; i < k; i++ {
-		if !(i == k-1 && newestInProgress) {
-			storedIdx = append(storedIdx, i)
-		}
-	}
-	csFoldPoints(c, kv, sdb, storedIdx, func(i int) *storage.Point { return specs[i].build(hashes[i], hashes[i+1]) }) // cs-* lines (s_consstore.go)
 	// restart: a new cache over the same stored bytes
 	cold := storage.NewConsensusDB(kv, 4, 64)
 	checkPeriods(cold, "by a restarted DB")
